@@ -19,7 +19,8 @@ pub fn regex_term(ctx: &Ctx, token: Token) -> RegexTerm {
 }
 pub type IntConst = ValSpan<u32>;
 pub fn int_const(ctx: &Ctx, token: Token) -> IntConst {
-    IntConst::new(token.value.parse().unwrap(), Some(ctx.span()))
+    // Integers which do not fit are saturated and reported by the grammar builder.
+    IntConst::new(token.value.parse().unwrap_or(u32::MAX), Some(ctx.span()))
 }
 pub type FloatConst = ValSpan<f32>;
 pub fn float_const(ctx: &Ctx, token: Token) -> FloatConst {
